@@ -106,6 +106,14 @@ def run_deductive(spec, res, tier):
         r2 = solve.discharge(aux, timeout_ms=3000, use_cvc5=False)
         # retry unknowns once with a longer budget (load on the box must not flip verdicts)
         retry = [o for o in main if r1[o.name]['verdict'] == 'unknown']
+        if len(retry) > 6:
+            # many open obligations: a changed body, not solver noise -- retry only one representative per obligation key
+            seen_k, rr = set(), []
+            for o in retry:
+                if key_of(o.name) not in seen_k:
+                    seen_k.add(key_of(o.name))
+                    rr.append(o)
+            retry = rr[:6]
         if retry:
             r1b = solve.discharge(retry, timeout_ms=timeout * 3)
             for o in retry:
@@ -250,8 +258,11 @@ def find_replay(spec, res, viol, tier, seed):
     data = load_json(out, None)
     if os.path.exists(out):
         os.unlink(out)
-    if data and data.get('violations'):
-        return data['violations'][0]
+    known = load_json(os.path.join(VERIF, 'known_findings.json'), {'findings': []})
+    kk = {f['key'] for f in known.get('findings', []) if f['property'] == res.pid}
+    cands = [v_ for v_ in (data or {}).get('violations', []) if v_.get('finding_key') not in kk]
+    if cands:
+        return cands[0]
     return None
 
 
@@ -283,13 +294,31 @@ def main(pid, tier, seed, replay=None):
     known_obl = {(f['property'], f['key']): f for f in known.get('findings', [])}
     lines = []
     final_viol = []
+    # one record per distinct failed obligation key / clause (before any replay search)
+    seen_keys = set()
+    uniq = []
+    for v in res.violations:
+        k_ = v.get('key') or (v.get('obligation'), v.get('finding_key'))
+        if k_ in seen_keys:
+            continue
+        seen_keys.add(k_)
+        uniq.append(v)
+    res.violations = uniq
+    finder_cache = {}
     for v in res.violations:
         if not v.get('bounded') and not v.get('ground'):
             k = (pid, v.get('key'))
             if k in known_obl:
                 res.known.append(f'KNOWN-FINDING: property={pid} {known_obl[k]["what"]} [obligation {v["key"]}]')
                 continue
-            w = find_replay(spec, res, v, tier, seed)
+            ck = (v['fn'], json.dumps(v.get('model_input'), default=str))
+            if ck not in finder_cache and (v['fn'], None) in finder_cache and not v.get('model_input'):
+                ck = (v['fn'], None)
+            if ck not in finder_cache:
+                finder_cache[ck] = find_replay(spec, res, v, tier, seed)
+                if not v.get('model_input'):
+                    finder_cache[(v['fn'], None)] = finder_cache[ck]
+            w = finder_cache[ck]
             if w:
                 v['replayed'] = w
                 v['confirmed'] = True
